@@ -519,6 +519,8 @@ Print Assumptions C10_write_mdat_modes_differ.
    NOTHING is assumed about the end time: that it lies inside every track follows from the tool succeeding.
    Whenever crop_mp4_file succeeds and writeMdat (lazy input mdat) succeeds, with pre = the encoded non-mdat boxes
    (any bytes of the length Size() gives them: rest + the table boxes of the OUTPUT tables):
+   * the track ids are pairwise distinct (the tool keys its per-track state by track id, the model by position; findTrakEnds,
+     repaired text /repo 4fe9823, refuses a repeated id: finding C10-F10);
    * the reference track is the first "vide" track, else the first "soun" track; endTimescale is its timescale;
    * T = et is the start of the first sync sample of the reference track starting at or after floor(ms*timescale/1000)
      (C10-F6: exact under C10_end_time_exact's guard), and that sample is not sample 1;
@@ -550,14 +552,14 @@ Proof.
 Qed.
 Theorem C10_crop_end_to_end :
   forall file zeof startPos large payloadLen hs ms rest pre et ets shifted ranges ks swm outf,
-  Forall (trak_wf file) (map th_trak hs) -> distinct_ids hs ->
+  Forall (trak_wf file) (map th_trak hs) ->
   4611686018427387904 + 2 * total_bytes (map th_trak hs) < 18446744073709551616 ->
   0 < payloadLen -> lenN file < 9223372036854775808 ->
   crop_mp4_file hs ms rest = Ok (et, ets, (shifted, ranges, ks, swm)) ->
   lenN pre = rest + sumN (map stbl_var_size shifted) ->
   lenN pre + mdat_out_hdr + 2 * total_bytes (map th_trak hs) < 18446744073709551616 ->
   crop_mp4_output file zeof (C08Model.mdat_lazy startPos large payloadLen) pre ranges = Ok outf ->
-  exists ref hdr, ref_choice hs ref /\ ets = ti_ts ref /\ swm = lenN pre /\
+  exists ref hdr, distinct_ids hs /\ ref_choice hs ref /\ ets = ti_ts ref /\ swm = lenN pre /\
     first_sync_from (ti_tb ref) (u64 (ms * ti_ts ref) / 1000) et /\
     outf = pre ++ hdr ++ out_bytes file ranges /\
     hdr = C08Model.be32 (lenN (out_bytes file ranges) + 8) ++ C08Model.name_mdat /\
@@ -570,7 +572,7 @@ Print Assumptions C10_crop_end_to_end.
    same conclusion when every byte range starts inside the input mdat's payload (range_in_mdat; CopyData refuses others) *)
 Theorem C10_crop_end_to_end_mem :
   forall file zeof startPos large payloadLen hs ms rest pre et ets shifted ranges ks swm outf,
-  Forall (trak_wf file) (map th_trak hs) -> distinct_ids hs ->
+  Forall (trak_wf file) (map th_trak hs) ->
   4611686018427387904 + 2 * total_bytes (map th_trak hs) < 18446744073709551616 ->
   C08Spec.box_in_file file startPos large payloadLen = true ->
   crop_mp4_file hs ms rest = Ok (et, ets, (shifted, ranges, ks, swm)) ->
@@ -578,7 +580,7 @@ Theorem C10_crop_end_to_end_mem :
   lenN pre = rest + sumN (map stbl_var_size shifted) ->
   lenN pre + mdat_out_hdr + 2 * total_bytes (map th_trak hs) < 18446744073709551616 ->
   crop_mp4_output file zeof (C08Model.mdat_mem file startPos large payloadLen) pre ranges = Ok outf ->
-  exists ref hdr, ref_choice hs ref /\ ets = ti_ts ref /\ swm = lenN pre /\
+  exists ref hdr, distinct_ids hs /\ ref_choice hs ref /\ ets = ti_ts ref /\ swm = lenN pre /\
     first_sync_from (ti_tb ref) (u64 (ms * ti_ts ref) / 1000) et /\
     outf = pre ++ hdr ++ out_bytes file ranges /\
     hdr = C08Model.be32 (lenN (out_bytes file ranges) + 8) ++ C08Model.name_mdat /\
@@ -624,14 +626,13 @@ Theorem C10_crop_end_to_end_mem_input :
   forall file zeof startPos large payloadLen hs ms rest pre et ets shifted ranges ks swm outf,
   Forall (chunks_in_payload file (startPos + C08Spec.hdr_len large) (startPos + C08Spec.hdr_len large + payloadLen))
          (map th_trak hs) ->
-  distinct_ids hs ->
   4611686018427387904 + 2 * total_bytes (map th_trak hs) < 18446744073709551616 ->
   C08Spec.box_in_file file startPos large payloadLen = true ->
   crop_mp4_file hs ms rest = Ok (et, ets, (shifted, ranges, ks, swm)) ->
   lenN pre = rest + sumN (map stbl_var_size shifted) ->
   lenN pre + mdat_out_hdr + 2 * total_bytes (map th_trak hs) < 18446744073709551616 ->
   crop_mp4_output file zeof (C08Model.mdat_mem file startPos large payloadLen) pre ranges = Ok outf ->
-  exists ref hdr, ref_choice hs ref /\ ets = ti_ts ref /\ swm = lenN pre /\
+  exists ref hdr, distinct_ids hs /\ ref_choice hs ref /\ ets = ti_ts ref /\ swm = lenN pre /\
     first_sync_from (ti_tb ref) (u64 (ms * ti_ts ref) / 1000) et /\
     outf = pre ++ hdr ++ out_bytes file ranges /\
     hdr = C08Model.be32 (lenN (out_bytes file ranges) + 8) ++ C08Model.name_mdat /\
@@ -650,3 +651,12 @@ Theorem C10_crop_mp4_durations : forall hs mvts tks ms rest et ets x nd tks',
   (forall mv, (exists t, In t tks /\ tk_dur t <= mv) -> nd <= mv).
 Proof. exact crop_mp4_all_ok. Qed.
 Print Assumptions C10_crop_mp4_durations.
+
+(* C10-F10 (fixed, /repo 4fe9823): the pinned findTrakEnds let two tracks with the same track ID share one per-track state; the
+   repaired text refuses them, so success implies pairwise distinct ids *)
+Theorem C10_success_distinct_ids : forall hs ms rest r, crop_mp4_file hs ms rest = Ok r -> distinct_ids hs.
+Proof. exact crop_mp4_file_distinct. Qed.
+Print Assumptions C10_success_distinct_ids.
+Example ex_dup_ids_refused :
+  crop_mp4_file [mkTH 1 (mkTI 1 500 (ti_tb (th_trak (nth 0 e2e_hs (mkTH 0 (mkTI 0 0 ex_tb)))))); mkTH 0 (mkTI 1 1000 ex_tb)] 45 60 = Err.
+Proof. vm_compute. reflexivity. Qed.
